@@ -19,9 +19,9 @@ def sequences : List (String × List FOp) := [
   ("npy-datetime", [.mkstemp, .write 128, .flush, .writeDirect 16, .flush, .fsync, .close, .flush, .fsyncDir, .rename]),
   ("npy-compressed", [.mkstemp, .write 2, .write 0, .write 0, .write 1640, .flush, .flush, .fsync, .close, .flush, .fsyncDir, .rename]),
   ("dict-of-arrays", [.mkstemp, .write 2, .write 0, .write 160, .flush, .flush, .fsync, .close, .flush, .fsyncDir, .rename]),
-  ("resave-pack", [.lockGet, .mkstemp, .write 2, .write 0, .write 59, .flush, .flush, .fsync, .close, .flush, .fsyncDir, .rename, .lockRelease]),
+  ("resave-pack", [.lockGet, .mkstemp, .write 2, .write 0, .write 59, .flush, .flush, .fsync, .close, .flush, .fsyncDir, .other "unlink", .rename, .lockRelease]),
   ("packed-overwrite-0", [.mkstemp, .write 2, .write 0, .write 26, .flush, .flush, .fsync, .close, .flush, .fsyncDir, .rename]),
-  ("packed-overwrite-1", [.lockGet, .mkstemp, .write 2, .write 0, .write 36, .flush, .flush, .fsync, .close, .flush, .fsyncDir, .rename, .lockRelease])]
+  ("packed-overwrite-1", [.lockGet, .mkstemp, .write 2, .write 0, .write 36, .flush, .flush, .fsync, .close, .flush, .fsyncDir, .other "unlink", .rename, .lockRelease])]
 def packedOverwritePublishesFirst : Bool := true
 /-- the same writes with their k-th data primitive (write / flush / fsync on the temporary file) reporting an error, for every k: what the real dump() does then -/
 def failingSequences : List (String × List FOp) := [
